@@ -463,6 +463,8 @@ val chain_order : nat list
 
 val excluded_value : n list
 
+val excluded_names : n list list
+
 val values : n list -> n list -> n list -> bool -> n list list
 
 val render : n list -> n list -> n list -> bool -> n list
@@ -1198,6 +1200,16 @@ val dir_run_docs : flag -> nat -> doc list -> fs -> fs
 val dir_processed : doc list -> nat
 
 val scrut_test_value : n list -> n -> n list
+
+type 'a assoc = (n list * 'a) list
+
+val lookup0 : n list -> 'a1 assoc -> 'a1 option
+
+val name_mem : n list -> n list list -> bool
+
+val excluded : n list -> bool
+
+val persisted_names : n list list -> n list list -> n list list
 
 val make_exp : bool -> bool -> (nat -> bool) -> nat exp
 
